@@ -43,19 +43,17 @@ def opC10Resources (j : Json) : Except String Json := do
     match (← v.getArr?).toList with
     | [Json.str t, Json.str p] => pure (⟨t.toList, p.toList⟩ : Resource)
     | _ => throw "bad resource"
-  let injective := decide ((rs.map fun r => lower (resourceType r)).Nodup)
+  let injective := decide ((rs.map (·.type)).Nodup)
+  let shortInjective := decide ((rs.map fun r => lower (resourceType r)).Nodup)
   let outs : Json :=
     if rs.length ≤ 6 then jarr ((outcomes (fun xs => (resourceHelperOrder xs).map (·.pattern)) rs).map fun o => jarr (o.map jstr))
     else Json.null
-  let pouts : Json :=
-    if rs.length ≤ 6 then jarr ((outcomes (fun xs => (resourceHelperOrderPatched xs).map (·.pattern)) rs).map fun o => jarr (o.map jstr))
-    else Json.null
   pure (Json.mkObj [("order", jarr ((resourceHelperOrder rs).map fun r => jstr r.pattern)),
+                    ("single_stage", jarr ((resourceHelperOrderSingleStage rs).map fun r => jstr r.pattern)),
                     ("keys", jarr (rs.map fun r => jstr (lower (resourceType r)))),
                     ("short", jarr (rs.map fun r => jstr (resourceType r))),
-                    ("injective", Json.bool injective), ("outcomes", outs),
-                    ("patched", jarr ((resourceHelperOrderPatched rs).map fun r => jstr r.pattern)),
-                    ("patched_outcomes", pouts)])
+                    ("injective", Json.bool injective), ("short_injective", Json.bool shortInjective),
+                    ("outcomes", outs)])
 
 open Model.Determinism in
 def opC10Disambiguate (j : Json) : Except String Json := do
